@@ -1,8 +1,8 @@
 package vc
 
 import (
-	"go/token"
 	"fmt"
+	"go/token"
 	"go/types"
 	"sort"
 	"strings"
@@ -219,6 +219,15 @@ func (fr *frame) callByContract(x *ssa.Call, fn *ssa.Function, con *Contract, cl
 			if i < len(clo.Bindings) {
 				names["&"+fv.Name()] = clo.Bindings[i]
 			}
+		}
+	}
+	// the contract text may still use the recorded (pre-rename) names of the callee's parameters / captured variables
+	for o, n := range g.Eng.renameFor(key, fn) {
+		if t, ok := names[n]; ok {
+			names[o] = t
+		}
+		if t, ok := names["&"+n]; ok {
+			names["&"+o] = t
 		}
 	}
 	fr.callSiteObligationsFor(key, x, nil, args, st)
